@@ -22,7 +22,8 @@
     deep-compares host and pattern before/after every call (TESTED_NOT_PROVED). *)
 From Coq Require Import List NArith Bool Arith Permutation SetoidList Relations.
 From SK Require Import lib.LGraph lib.Mono model.C06_Model lib.C06_Spec
-  proof.C06_All proof.C06_Comp proof.C06_Comps proof.C06_CompSem proof.C06_CompNoDup proof.C06_Prefilter proof.C06_Table proof.C06_Api proof.C06_Main.
+  proof.C06_All proof.C06_Comp proof.C06_Comps proof.C06_CompSem proof.C06_CompNoDup proof.C06_Prefilter proof.C06_Table proof.C06_Api proof.C06_Main
+  model.C06_Attrs lib.C06_SelSpec proof.C06_Attrs proof.C06_AttrsSpec proof.C06_AttrsEx.
 Import ListNotations.
 
 (** ** 0. What the specification predicates say, written out *)
@@ -311,3 +312,92 @@ Theorem C06_default_call : forall (enum : list N -> list N -> list mapping) (H P
     (forall m, is_mono H P m -> separating H P m -> exists m', In m' R /\ Permutation m m').
 Proof. exact default_call_spec. Qed.
 Print Assumptions C06_default_call.
+
+(** ** 6. Attribute dictionaries and selections (model/C06_Attrs.v).  From round 5 on the
+    correspondence hands the model the graphs as the caller has them - every node / edge with its
+    whole attribute dictionary - and the selections [node_attrs] / [edge_attrs] as lists of names;
+    [run_sel_set] / [run_sel_list] / [run_sel_api] evaluate [find_sel], [quick_pre_filter_sel] and the
+    enumerator [monos_sel] run with the two closures of subgraph_matcher.py ([node_match_sel],
+    [edge_match_sel]).  [aget k d] is [d.get(k)] (None = 0), [hc l] is [l.get("hcount", 0)]. *)
+
+(** the closures, written out *)
+Theorem C06_sel_closures : forall (na ea : list N) (nh np : rnlab) (eh ep : rattrs),
+  (node_match_sel na nh np = true <->
+     (forall k, In k na -> aget k (fst nh) = aget k (fst np)) /\ (hc np <= hc nh)%N) /\
+  (edge_match_sel ea eh ep = true <-> forall k, In k ea -> aget k eh = aget k ep).
+Proof. exact (fun na ea nh np eh ep => conj (node_match_sel_meaning na nh np) (edge_match_sel_meaning ea eh ep)). Qed.
+Print Assumptions C06_sel_closures.
+
+(** the bridge to sections 0-5: the closures are the comparators [nm] / [em] of the projected
+    graphs; on node lists of the two graphs the enumeration with the closures IS the verified
+    enumerator on the projections; what the correspondence evaluates is [find] on the projections
+    with that enumerator (so every theorem above about [find (monos_on H P) c H P] is a theorem
+    about the evaluated term), and the pre-filter verdicts coincide *)
+Theorem C06_sel_projection : forall (na ea : list N) (H P : rgraph),
+  (forall nh np, node_match_sel na nh np = nm (proj_n na nh) (proj_n na np)) /\
+  (forall eh ep, edge_match_sel ea eh ep = em (proj_e ea eh) (proj_e ea ep)) /\
+  (forall hn pn, incl hn (node_ids H) -> incl pn (node_ids P) ->
+     monos_on (project na ea H) (project na ea P) hn pn = monos_sel na ea H P hn pn) /\
+  (forall c, find_sel (monos_sel na ea H P) c na ea H P =
+             find (monos_on (project na ea H) (project na ea P)) c (project na ea H) (project na ea P)) /\
+  (forall thr, quick_pre_filter_sel na H P thr = quick_pre_filter (project na ea H) (project na ea P) thr).
+Proof.
+  exact (fun na ea H P => conj (node_match_sel_proj na) (conj (edge_match_sel_proj ea)
+           (conj (monos_sel_project na ea H P) (conj (fun c => find_sel_project c na ea H P)
+                 (quick_pre_filter_sel_project na ea H P))))).
+Qed.
+Print Assumptions C06_sel_projection.
+
+(** [find] asks its enumeration oracle only for sub-lists of the node lists of the two graphs
+    (whole graph x whole graph, component x component): two oracles that agree there give the
+    same result for every configuration *)
+Theorem C06_enum_calls_inside : forall (e1 e2 : list N -> list N -> list mapping) (H P : graph),
+  (forall hn pn, incl hn (node_ids H) -> incl pn (node_ids P) -> e1 hn pn = e2 hn pn) ->
+  forall c, find e1 c H P = find e2 c H P.
+Proof. exact find_enum_ext. Qed.
+Print Assumptions C06_enum_calls_inside.
+
+(** the first sentence of the property, on the caller's graphs (no projection in the statement):
+    the exhaustive strategy without limits returns exactly the injective maps under which every
+    SELECTED node attribute name has equal values in the two dictionaries, the host hcount is at
+    least the pattern's, and every pattern bond lands on a host bond whose dictionary agrees on
+    every SELECTED edge attribute name - sound, complete, duplicate-free *)
+Theorem C06_sel_all_exact : forall (na ea : list N) (T : N) (strict : bool) (H P : rgraph),
+  (NoDup (node_ids H) /\ forall a b x, In (a, b, x) (gedges H) -> In a (node_ids H) /\ In b (node_ids H) /\ a <> b) ->
+  (NoDup (node_ids P) /\ forall a b x, In (a, b, x) (gedges P) -> In a (node_ids P) /\ In b (node_ids P) /\ a <> b) ->
+  (lenN (monos_sel na ea H P (node_ids H) (node_ids P)) <= T)%N ->
+  let R := find_sel (monos_sel na ea H P) (Cfg 0 0 T strict false) na ea H P in
+  let good (m : mapping) :=
+    NoDup (map fst m) /\ (forall p, In p (map fst m) <-> In p (node_ids P)) /\ NoDup (map snd m) /\
+    (forall p h, In (p, h) m ->
+       In h (node_ids H) /\
+       (forall k, In k na -> aget k (fst (rlab H h)) = aget k (fst (rlab P p))) /\
+       (hc (rlab P p) <= hc (rlab H h))%N) /\
+    (forall p h p' h' b, In (p, h) m -> In (p', h') m -> LGraph.adj P p p' = Some b ->
+       exists b', LGraph.adj H h h' = Some b' /\ forall k, In k ea -> aget k b' = aget k b) in
+  (forall m, In m R -> good m) /\
+  (forall m, good m -> exists m', In m' R /\ Permutation m m') /\
+  NoDupA (@Permutation (N * N)) R.
+Proof. exact sel_all_exact. Qed.
+Print Assumptions C06_sel_all_exact.
+
+(** a selection is a SET of names: order and repetitions in [node_attrs] / [edge_attrs] are
+    immaterial - identical result lists for every configuration (strategy, limits, pre-filter) *)
+Theorem C06_sel_same_members : forall (na na' ea ea' : list N) (H P : rgraph) (c : cfg),
+  incl na na' -> incl na' na -> incl ea ea' -> incl ea' ea ->
+  find_sel (monos_sel na' ea' H P) c na' ea' H P = find_sel (monos_sel na ea H P) c na ea H P.
+Proof. exact sel_same_members. Qed.
+Print Assumptions C06_sel_same_members.
+
+(** selecting MORE names can only remove matches (exhaustive strategy, thresholds not binding):
+    every match under the larger selections is a match under the smaller ones *)
+Theorem C06_sel_refines : forall (na na' ea ea' : list N) (T T' : N) (strict strict' : bool) (H P : rgraph),
+  (NoDup (node_ids H) /\ forall a b x, In (a, b, x) (gedges H) -> In a (node_ids H) /\ In b (node_ids H) /\ a <> b) ->
+  (NoDup (node_ids P) /\ forall a b x, In (a, b, x) (gedges P) -> In a (node_ids P) /\ In b (node_ids P) /\ a <> b) ->
+  incl na na' -> incl ea ea' ->
+  (lenN (monos_sel na ea H P (node_ids H) (node_ids P)) <= T)%N ->
+  (lenN (monos_sel na' ea' H P (node_ids H) (node_ids P)) <= T')%N ->
+  forall m, In m (find_sel (monos_sel na' ea' H P) (Cfg 0 0 T' strict' false) na' ea' H P) ->
+  exists m', In m' (find_sel (monos_sel na ea H P) (Cfg 0 0 T strict false) na ea H P) /\ Permutation m m'.
+Proof. exact sel_refines. Qed.
+Print Assumptions C06_sel_refines.
